@@ -36,7 +36,18 @@ HandsOver(nd) == \E b \in Range(Post(nd).borrows) : b.ho /\ HasId(Pre(nd).borrow
 (* UpdateLockedBorrows (liquidate.go:388-396) deletes the lend position as soon as AmountIn - collateral <= 0.              *)
 DropsLend(nd) == HandsOver(nd) /\ \E l \in Range(Pre(nd).lends) :
                     ~HasId(Post(nd).lends, l.id) /\ (l.av > 0 \/ \E b \in Range(Post(nd).borrows) : b.lend = l.id /\ ~b.ho)
-C08BooksLend(nd)   == Judged(nd) /\ ~HandsOver(nd) => DBooksLend(Pre(nd), Post(nd))
+(* a first-generation auction ends with the whole principal recovered: the position is deleted and its remaining collateral cTokens go back *)
+(* to the owner. NAMED DEVIATION: UnLiquidateLockedBorrows returns the cTokens without raising the lend position's AvailableToBorrow.       *)
+DebtClearedV1(nd) == nd.a = "BidV1" /\ nd.res.ok /\ \E l \in Range(Log[nd.parent].st.x.v1lv) :
+                        l.ain > 0 /\ HasId(Pre(nd).borrows, l.b) /\ ~HasId(Post(nd).borrows, l.b)
+(* a first-generation auction ends, the position is still unsafe, and the attempt to auction it again fails half-way. NAMED DEVIATION:     *)
+(* UnLiquidateLockedBorrows swallows the error of UpdateLockedBorrows (underwater position: burning the uncapped cTokens fails) after the   *)
+(* published total and the coins have already been moved; the vault is left "complete" without a new auction.                              *)
+ReauctionGaveUpV1(nd) == nd.a = "BidV1" /\ nd.res.ok /\ \E l \in Range(nd.st.x.v1lv) :
+                            l.done /\ ~l.prog /\ \E l0 \in Range(Log[nd.parent].st.x.v1lv) : l0.id = l.id /\ l0.prog
+C08BooksLend(nd)   == Judged(nd) /\ ~HandsOver(nd) /\ ~DebtClearedV1(nd) /\ ~ReauctionGaveUpV1(nd) => DBooksLend(Pre(nd), Post(nd))
+C08BooksLendRG(nd) == Judged(nd) /\ ReauctionGaveUpV1(nd) => DBooksLend(Pre(nd), Post(nd))
+C08BooksLendDC(nd) == Judged(nd) /\ DebtClearedV1(nd) => DBooksLend(Pre(nd), Post(nd))
 C08BooksLendHO(nd) == Judged(nd) /\ HandsOver(nd) /\ ~DropsLend(nd) => DBooksLend(Pre(nd), Post(nd))
 C08BooksLendHD(nd) == Judged(nd) /\ DropsLend(nd) => DBooksLend(Pre(nd), Post(nd))
 C08BooksBorrow(nd) == Judged(nd) /\ nd.a # "LiquidateV1" /\ ~BridgedClose1(nd) => DBooksBorrow(CfgOf(nd), Pre(nd), Post(nd))
@@ -280,7 +291,7 @@ Conf(nd) ==
 ConfModel(nd) == ~IsRoot(nd) /\ Walk(nd) /\ "mok" \in DOMAIN nd.res => Act(nd, WalkEnv(nd)).ok = nd.res.mok
 
 ConfNames == {"Conf_" \o x : x \in Predicted}
-Formulas == <<"C08_BooksRoot", "C08_BooksLend", "C08_BooksLendHandOver", "C08_BooksLendHandOverDrop", "C08_BooksBorrow", "C08_BooksBorrowV1Msg", "C08_BooksBorrowV1BridgedClose", "C08_Ltv", "C08_LtvMismatched", "C08_LtvOpenBridged", "C08_LtvDrawBridged", "C08_PoolHeld",
+Formulas == <<"C08_BooksRoot", "C08_BooksLend", "C08_BooksLendHandOver", "C08_BooksLendHandOverDrop", "C08_BooksLendV1DebtCleared", "C08_BooksLendV1ReauctionGaveUp", "C08_BooksBorrow", "C08_BooksBorrowV1Msg", "C08_BooksBorrowV1BridgedClose", "C08_Ltv", "C08_LtvMismatched", "C08_LtvOpenBridged", "C08_LtvDrawBridged", "C08_PoolHeld",
               "C08_NoRelease",
               "C09_BorrowOnlyUnsafe", "C09_BorrowEnabled", "C09_BorrowSeizeExact", "C09_BorrowCustodyMoves", "C09_BorrowLive", "C09_BorrowLiveIlliquid", "C09_BorrowLive_V1", "C09_BorrowLiveIlliquid_V1",
               "C10_LendPaidWithinTarget", "C10_LendReceivedWithinSeized", "C10_LendPostedPrice", "C10_LendRemaining", "C10_LendCustody",
@@ -298,6 +309,8 @@ Holds(f, i) ==
     [] f = "C08_BooksLend" -> C08BooksLend(nd)
     [] f = "C08_BooksLendHandOver" -> C08BooksLendHO(nd)
     [] f = "C08_BooksLendHandOverDrop" -> C08BooksLendHD(nd)
+    [] f = "C08_BooksLendV1DebtCleared" -> C08BooksLendDC(nd)
+    [] f = "C08_BooksLendV1ReauctionGaveUp" -> C08BooksLendRG(nd)
     [] f = "C08_BooksBorrow" -> C08BooksBorrow(nd)
     [] f = "C08_BooksBorrowV1Msg" -> C08BooksBorrowV1(nd)
     [] f = "C08_BooksBorrowV1BridgedClose" -> C08BooksBorrowBr(nd)
@@ -423,6 +436,8 @@ Stats == PrintT(<<"STATS", [nodes |-> NLog,
            v1SmallBatchRuns |-> Count(LAMBDA nd : ~IsRoot(nd) /\ CfgOf(nd).v1 /\ IsBlock(nd) /\ SweepLen(PreS(nd)) > CfgOf(nd).batch1),
            v1CursorWraps |-> Count(LAMBDA nd : ~IsRoot(nd) /\ CfgOf(nd).v1 /\ IsBlock(nd) /\ SweepLen(PreS(nd)) > CfgOf(nd).batch1 /\ PostS(nd).x.off1 < PreS(nd).x.off1),
            v1LateSeizures |-> Count(LAMBDA nd : Judged(nd) /\ nd.a = "Tick" /\ SweepLen(PreS(nd)) > CfgOf(nd).batch1 /\ \E b \in SeizedV1(PreS(nd), PostS(nd)) : TRUE),
+           v1ReauctionGaveUp |-> Count(LAMBDA nd : Judged(nd) /\ ReauctionGaveUpV1(nd)),
+           v1DebtCleared |-> Count(LAMBDA nd : Judged(nd) /\ DebtClearedV1(nd)),
            v1Bids |-> Count(BidOk1),
            v1PartialBids |-> Count(LAMBDA nd : BidOk1(nd) /\ ~Closing1(nd)),
            v1ClosingBids |-> Count(Closing1),
